@@ -89,9 +89,17 @@ def render_feature(case):
 
 
 # ---------------------------------------------------------------- implementation
+def table_headings(table):
+    """The heading line of a step table as its users see it: through the table and through each of its rows (row[...],
+    row.get, row.as_dict go through row.headings). When the two views differ both are reported."""
+    head = list(table.headings)
+    stale = [list(r.headings) for r in table.rows if list(r.headings) != head]
+    return head if not stale else {"table.headings": head, "row.headings": stale[0]}
+
+
 def describe_step(st):
     return {"keyword": st.keyword, "name": st.name, "doc": (str(st.text) if st.text is not None else None),
-            "table": ([list(st.table.headings), [list(r.cells) for r in st.table.rows]] if st.table is not None else None),
+            "table": ([table_headings(st.table), [list(r.cells) for r in st.table.rows]] if st.table is not None else None),
             "line": st.line}
 
 
